@@ -63,6 +63,17 @@ Fixpoint noreg (s : stmt) : bool :=
 with bnoreg (b : block) : bool :=
   match b with BNil => true | BCons s r => noreg s && bnoreg r end.
 
+(* a block that certainly emits commands (a loop_until whose body emits nothing is dropped by the
+   builder together with its cleanup code) *)
+Definition emits_stmt (s : stmt) : bool :=
+  match s with
+  | SNewQubit _ | SGate _ _ | SRot _ _ _ _ | STwo _ _ _ | SMeasFut _ _ _ _ | SMeasNew _ _ _
+  | SMeasReg _ _ _ | SFree _ | SFutAdd _ _ _ _ | SRegAdd _ _ _ => true
+  | _ => false
+  end.
+Fixpoint emits (b : block) : bool :=
+  match b with BNil => false | BCons s r => emits_stmt s || emits r end.
+
 (* statements covered by the composed theorem.  Register futures are measured only where the
    measurement runs whenever the enclosing code runs: not under an `if`, not in a loop that may
    run zero rounds, not in a foreach, not in a loop_until cleanup (the complement contains the
@@ -74,7 +85,7 @@ Fixpoint wfs (s : stmt) : bool :=
   | SLoop _ _ (Some _) _ _ _ _ => false
   | SForeach _ _ _ b => wf_body b && bnoreg b && bwfs b
   | SLoopUntil _ mx b _ _ cl =>
-      wf_body b && wf_body cl && bwfs b && bwfs cl && bnoreg cl && (Z.ltb 0 mx || bnoreg b)
+      wf_body b && wf_body cl && bwfs b && bwfs cl && bnoreg cl && (Z.ltb 0 mx || bnoreg b) && emits b
   | SEpr _ _ | SFlush | SNewReg _ _ | SUAdd _ _ _ => false
   | _ => true
   end
